@@ -87,3 +87,26 @@ def act_sym(A, D, k, p, g, lead=0):
 def rotated_flags(is_torus, g):
     col, _ = perm_of(np.asarray(g))
     return tuple(is_torus[col[i]] for i in range(len(col)))
+
+
+def shift_sym(X, taus, D, lead=0):
+    """cyclic translation of the spatial axes of an SArray (dims lead + spatial + tensor):
+    (T X)[.., i_d, ..] = X[.., (i_d - tau_d) mod N_d, ..]; taus are integer terms with 0 <= tau_d < N_d"""
+    import z3
+    from .. import arr, sym
+    from ..sym import zi
+
+    def elem(idx):
+        src = list(idx[:lead])
+        for d in range(D):
+            q = z3.simplify(zi(idx[lead + d]) - zi(taus[d]))
+            n = zi(X.dims[lead + d].ext)
+            if sym.valid(q >= 0):
+                s_ = q
+            elif sym.valid(q < 0):
+                s_ = q + n
+            else:
+                s_ = z3.If(q < 0, q + n, q)
+            src.append(z3.simplify(s_))
+        return X.elem(src + list(idx[lead + D:]))
+    return arr.SArray(list(X.dims), elem, X.dtype)
